@@ -208,8 +208,13 @@ from dnf import FLIP, neg_lit, conj_unsat, dnf_simplify, dnf_implies
 
 
 def sync_only_fact(f):
-    s = show(f)
-    if f[0] == "bool" and f[2] is False and tag(f[1]) == "field" and f[1][2] == "ro":
+    try:
+        s = show(f)
+    except IndexError:
+        import sys
+        sys.stderr.write("SHOWFAIL %r\n" % (f,))
+        raise
+    if f[0] == "bool" and len(f) > 2 and f[2] is False and tag(f[1]) == "field" and len(f[1]) > 2 and f[1][2] == "ro":
         return True   # `!self.ro` is established once at the public entry (C04-E1); helpers re-assert it at different depths
     return ("cas(" in s or "cas[" in s or "casfail" in s or "REMOVED_SEGMENT_NODE" in s or "max_retries" in s or "Backoff" in s or "is_completed" in s)
 
@@ -253,6 +258,8 @@ def summarise(ctx, b, flavour, inline=()):
             failed = None
             if f[0] == "discr" and tag(f[1]) == "cas" and f[2][0] == "eq":
                 cas, failed = f[1], f[2][1] == 1
+            elif f[0] == "discr" and tag(f[1]) == "cas" and f[2] in (("ne", (1,)), ("ne", (0,))):
+                cas, failed = f[1], f[2] == ("ne", (0,))       # Result has two variants: `not Err` is Ok (`let Err(x) = cas(..) else { .. }`)
             elif f[0] == "is" and tag(f[2]) == "cas":
                 cas, failed = f[2], (f[1] == "is_err") == bool(f[3])
             if cas is not None:
@@ -279,6 +286,8 @@ def summarise(ctx, b, flavour, inline=()):
                 continue    # a test of a value joined from variant constructions: carried by the guards of the constructing edges (sym._flag_phi_guards)
             if f[0] == "discr" and tag(f[1]) == "tryfrom":
                 continue    # Ok <=> the value fits the target type: carried by the two comparisons (Err is expanded into its two cases by dnf.guard_dnf_pairs)
+            if f[0] == "discr" and tag(f[1]) == "variant":
+                continue    # the discriminant of a literal Some(..) / None says nothing
             if f[0] == "discr" and tag(f[1]) == "filter":
                 opt, pv = f[1][1], f[1][2]
                 if f[2] in (("eq", 0), ("ne", (1,))) and tag(opt) == "call" and isinstance(opt[1], str) and opt[1].endswith("checked_add"):
@@ -343,6 +352,8 @@ def summarise(ctx, b, flavour, inline=()):
         cas = None
         if f[0] == "discr" and tag(f[1]) == "cas" and f[2][0] == "eq":
             cas, failed = f[1], f[2][1] == 1
+        elif f[0] == "discr" and tag(f[1]) == "cas" and f[2] in (("ne", (1,)), ("ne", (0,))):
+            cas, failed = f[1], f[2] == ("ne", (0,))
         elif f[0] == "is" and tag(f[2]) == "cas":
             cas, failed = f[2], (f[1] == "is_err") == bool(f[3])
         if cas is not None:
@@ -487,6 +498,24 @@ def summarise(ctx, b, flavour, inline=()):
                     items.cur = d_
                     items.add(("ret", repr(const(int(nm == v[2]))), guards))
                 items.cur = base
+            elif own_phi(v) and all(tag(a) in ("cmp", "not", "phi") or is_const(a) for a in v[3]) and not e["chain"]:
+                # a boolean joined from several exits (`!empty && helper(..).is_some()` with the helper's exits inlined): one return per truth value, under the
+                # exits that bring it and, for an exit that brings a comparison, under its outcome
+                base = items.cur
+                for val in (1, 0):
+                    cur = []
+                    for a in D.expand_bool_joins(ev, res, b, D.bool_dnf(ev, res, b, v, bool(val))):
+                        lv, linf = project_lits(a)
+                        if linf:
+                            continue
+                        for c in (base or []):
+                            cc = c | frozenset(lv)
+                            if not conj_unsat(cc):
+                                cur.append(cc)
+                    items.cur = None if base is None else cur
+                    if cur or base is None:
+                        items.add(("ret", repr(const(val)), guards))
+                items.cur = base
             elif tag(v) in ("cmp", "not") and not e["chain"]:
                 # `return a >= b` is `if a >= b { true } else { false }`: one item per truth value, each under the comparison's outcome
                 base = items.cur
@@ -500,7 +529,9 @@ def summarise(ctx, b, flavour, inline=()):
                     items.add(("ret", repr(const(val)), tuple(sorted(set(guards) | gv))))
                 items.cur = base
             else:
+                # `Ok(match kind { A => 0, _ => f() })` is one return per arm: each resulting value under the exact condition of its arm
                 items.add(("ret", repr(k.t(v)), guards))
+                note_cases("ret", "ret", v, e)
         elif kind == "call" and e.get("atomic") in ("store",):
             emit_write(items, k.place(e["target"]), k.t(e["new"]), guards)
             note_cases("write", k.place(e["target"]), e["new"], e)
@@ -587,6 +618,21 @@ def compare(ss, su):
             if set(ta) == set(tb) and all(dnf_implies(ta[v], tb[v]) and dnf_implies(tb[v], ta[v]) for v in ta):
                 done.add(wkey)
         sigs = set(sg for sg in sigs if not (sg[0] == "write" and ("write", sg[1]) in done))
+        # likewise a returned value that is a join: one return per resulting value
+        rkey = ("ret", repr("ret"))
+        if any(sg[0] == "ret" and len(sg) == 2 for sg in sigs) and (ss.cases.get(rkey) or su.cases.get(rkey)):
+            def rtable(side):
+                t_ = {}
+                for v, d in side.cases.get(rkey) or []:
+                    t_.setdefault(v, []).extend(d)
+                for it in side:
+                    if it[0] == "ret" and len(it) == 3 and "kphi" not in it[1]:
+                        t_.setdefault(it[1], []).extend(side.exact.get(it[:-1]) or [])
+                return {v: dnf_simplify(d) for v, d in t_.items() if d}
+            if ss.cases.get(rkey, []) is not None and su.cases.get(rkey, []) is not None:
+                ta, tb = rtable(ss), rtable(su)
+                if ta and set(ta) == set(tb) and all(dnf_implies(ta[v], tb[v]) and dnf_implies(tb[v], ta[v]) for v in ta):
+                    sigs = set(sg for sg in sigs if not (sg[0] == "ret" and len(sg) == 2))
         for sig in sigs:
             A, B = ss.exact.get(sig), su.exact.get(sig)
             if not A or not B:
